@@ -117,10 +117,14 @@ def exhaustive_oracle(case):
 
 
 def enum_cases(tier):
-    shapes = list(G.SHAPES_QUICK)
+    import itertools
+    it = G.enum_grids(list(G.SHAPES_QUICK))
     if tier == "thorough":
-        shapes += G.SHAPES_THOROUGH
-    return G.enum_grids(shapes)
+        it = itertools.chain(
+            it, G.enum_grids([(1, 4), (4, 1)]),
+            G.enum_grids([(2, 3), (3, 2)],
+                         alphabet=[0, 1, 2, 4, 16, 64, 3]))
+    return it
 
 
 @st.composite
